@@ -5,13 +5,14 @@ All theorems are about the Model functions the driver executes (OFV/Model/C16.le
 (OFV/Spec/Basic.lean) that give the reductions their meaning.
 
 Not proved here (see OPEN_STATEMENTS in harness/c16.py): the operator-level statements
-(agreement on the code space, spectrum of the tapered operator, conjugation by exp(iθP),
-Fock-space soundness of freeze_orbitals for whole operators, SCBK sector): Spec oracle only.
+(spectrum of the tapered operator, freeze_orbitals with prune=True, SCBK sector): Spec oracle only.
 -/
 import OFV.Proofs.C16
 import OFV.Proofs.C16Pauli
 import OFV.Proofs.C16Loop
 import OFV.Proofs.C16Proj
+import OFV.Proofs.C16Embed
+import OFV.Proofs.C16Freeze
 
 namespace OFV.C16
 open OFV OFV.Spec OFV.Model OFV.Model.C16 OFV.C16P OFV.Generated
@@ -157,69 +158,78 @@ is multiplied by it -/
 example : fixSingleTerm [([(0, 3), (1, 3)], 1)] 0 3 2 [([(0, 1), (1, 1)], 1)]
     = .ok (mulOp .qubit [([(0, 3), (1, 3)], 1)] [([(0, 1), (1, 1)], 1)]) := by decide +kernel
 
-/- Full statement: for every tolerance `tol`, whenever `_reduce_terms` succeeds its result acts like
-   the input operator on every state stabilized by all the stabilizers.  Proved below for the loop run
-   with `tol = 0` (the `+=` of `new_terms` never prunes); missing for `tol = 1e-8`: the bookkeeping that
-   no partial sum of the run is non-zero but below the tolerance (`ExactAdd` along the run). -/
-/-- **`reduce_terms_agrees_on_codespace`** (pruning-free arithmetic).  For any operator and any list
+/-- **`reduce_terms_agrees_on_codespace`** at the live tolerance.  For any operator and any list
 of stabilizers with Pauli codes `< 4` — any signs and coefficients, automatic or manual fixed
-positions, commuting or not, independent or not — if the loop of `_reduce_terms` succeeds, the
-reduced operator and the original one act identically on every state `ψ` with `S ψ = ψ` for all
-stabilizers `S` (induction over the stabilizer list: the updated stabilizers still stabilize `ψ`). -/
-theorem reduce_terms_agrees_on_codespace_partial (terms out : Model.Op) (stabs : List Model.Op) (manual : Bool)
-    (fixed fx : List Nat) (stale : Bool) (hv : Sem.ValidOp terms) (hs : ∀ s ∈ stabs, Sem.ValidOp s)
-    (h : reduceTerms 0 terms stabs manual fixed = .ok (out, fx, stale)) (ψ : QS)
+positions, commuting or not, independent or not — if the loop of `_reduce_terms` succeeds and its
+exactness flag is `true` (every `new_terms +=` of this run was in the exact regime: no partial sum
+non-zero but below the tolerance — computed by the same Model run and reported by the driver for
+every generated input), then the reduced operator and the original one act identically on every
+state `ψ` with `S ψ = ψ` for all stabilizers `S` (induction over the stabilizer list: the updated
+stabilizers still stabilize `ψ`). -/
+theorem reduce_terms_agrees_on_codespace (tol : Rat) (terms out : Model.Op) (stabs : List Model.Op)
+    (manual : Bool) (fixed fx : List Nat) (stale : Bool) (hv : Sem.ValidOp terms)
+    (hs : ∀ s ∈ stabs, Sem.ValidOp s)
+    (h : reduceTerms tol terms stabs manual fixed = .ok (out, fx, stale, true)) (ψ : QS)
     (hψ : ∀ s ∈ stabs, evOp s ψ = ψ) : evOp out ψ = evOp terms ψ := by
   rw [reduceTerms_eq] at h
-  cases hf : (List.range stabs.length).foldlM (redBody 0 manual)
-      (terms, (⟨[], stabs, if manual then fixed else [], none, false⟩ : LoopState)) with
-  | error e => simp [hf, bind, Except.bind] at h
+  generalize hf : List.foldlM (redBodyX tol manual) _ (List.range stabs.length) = x at h
+  cases x with
+  | error e => simp [bind, Except.bind] at h
   | ok r =>
-    simp only [hf, bind, Except.bind, Except.ok.injEq, Prod.mk.injEq] at h
-    have hI := foldlM_inv manual ψ (evOp terms) _ _ r hf
+    obtain ⟨⟨r1, r2⟩, rb⟩ := r
+    simp only [bind, Except.bind, Except.ok.injEq, Prod.mk.injEq] at h
+    have hI := (foldlM_inv tol manual ψ (evOp terms) _ _ (r1, r2) true rb hf h.2.2.2).2
       ⟨hv, fun s hsm => ⟨hs s hsm, hψ s hsm⟩, rfl⟩
     rw [← h.1]
     exact hI.2.2
 
-/-- non-vacuity: `Z0 Z1 + Y0 Y1` reduced with the stabilizer `X0 X1` -/
-example : (match reduceTerms 0 [([(0, 3), (1, 3)], 1), ([(0, 2), (1, 2)], 1)] [[([(0, 1), (1, 1)], 1)]] false [] with
-    | .ok r => r.1.length
-    | .error _ => 99) = 1 := by decide +kernel
+/-- at tolerance 0 (no pruning) the exactness flag is always `true` -/
+theorem reduce_terms_exact_of_tol_zero (L : List Model.Op) (acc : Model.Op) : exactSumB 0 acc L = true :=
+  exactSumB_zero L acc
+
+/-- non-vacuity at the live tolerance: `Z0 Z1 + 2·Y0 Y1` reduced with the stabilizer `X0 X1` is exact -/
+example : (match reduceTerms eqTolerance [([(0, 3), (1, 3)], 1), ([(0, 2), (1, 2)], 2)]
+      [[([(0, 1), (1, 1)], 1)]] false [] with
+    | .ok r => r.2.2.2
+    | .error _ => false) = true := by decide +kernel
 
 /-! ### `project_onto_sector` as matrix elements between embedded states
 
-`Emb qubits sectors E` says that `E` embeds basis states of the small register into the full one:
-kept qubit `q` sits at bit `shiftDown qubits q` of the small mask, removed qubits carry their
-sector value (OFV/Proofs/C16Proj.lean; `emb_example` is an instance). -/
+`Emb n qubits sectors E` says that `E` embeds basis states of the small register (`n - k` qubits) into
+the full one (`n` qubits): kept qubit `q` sits at bit `shiftDown qubits q` of the small mask, removed
+qubits carry their sector value, `E` is injective on masks `< 2^(n-k)` (OFV/Proofs/C16Proj.lean).
+`embed_emb` proves it for the embedding the Spec oracle uses, for every list of distinct qubits. -/
 
 /-- **a kept term** (Pauli codes 1..3, no `X` / `Y` on a removed qubit): its matrix elements between
 embedded states are those of the re-indexed term times `(-1)^(number of Z on sector-1 qubits)` —
 the coefficient `project_onto_sector` stores.  Tolerance-free, any term length. -/
-theorem project_term_kept (qubits sectors : List Nat) (E : Nat → Nat) (hE : Emb qubits sectors E)
+theorem project_term_kept (n : Nat) (qubits sectors : List Nat) (E : Nat → Nat) (hE : Emb n qubits sectors E)
+    (hq : qubits.Nodup) (hqn : ∀ q ∈ qubits, q < n)
     (hsec : ∀ q, sectors[indexOf qubits q]?.getD 0 = 0 ∨ sectors[indexOf qubits q]?.getD 0 = 1)
-    (τ : Model.Term) (hp : Pauli123 τ) (hz : ∀ f ∈ τ, f.1 ∈ qubits → f.2 = 3) (s t : Nat) :
+    (τ : Model.Term) (hp : Pauli123 τ) (hz : ∀ f ∈ τ, f.1 ∈ qubits → f.2 = 3) (hn : ∀ f ∈ τ, f.1 < n)
+    (s t : Nat) (hs : s < 2 ^ (n - qubits.length)) (ht : t < 2 ^ (n - qubits.length)) :
     Sem.termCoef .qubit τ [E s] [E t]
       = GQ.sgn (expo qubits sectors τ) * Sem.termCoef .qubit (newTerm qubits τ) [s] [t] :=
-  termCoef_kept qubits sectors E hE hsec τ hp hz s t
+  termCoef_kept n qubits sectors E hE hq hqn hsec τ hp hz hn s t hs ht
 
 /-- **a dropped term** (`X` or `Y` on a removed qubit, distinct qubit indices) has no matrix element
 inside the sector. -/
-theorem project_term_dropped (qubits sectors : List Nat) (E : Nat → Nat) (hE : Emb qubits sectors E)
+theorem project_term_dropped (n : Nat) (qubits sectors : List Nat) (E : Nat → Nat) (hE : Emb n qubits sectors E)
     (τ : Model.Term) (hd : τ.Pairwise (fun a b => a.1 ≠ b.1))
     (hxy : τ.any (fun t => qubits.contains t.1 && (t.2 == 1 || t.2 == 2)) = true) (s t : Nat) :
     Sem.termCoef .qubit τ [E s] [E t] = 0 :=
-  termCoef_dropped qubits sectors E hE τ hd hxy s t
+  termCoef_dropped n qubits sectors E hE τ hd hxy s t
 
-/- Full statement: for the live tolerance as well.  Proved for the loop run without pruning (`tol = 0`);
-   missing: that no partial sum of `projected_operator +=` is non-zero but below `1e-8`. -/
-/-- **`project_onto_sector_sound`** (pruning-free arithmetic): if `project_onto_sector` succeeds on an
-operator whose terms are Pauli strings on distinct qubits, then
-`⟨t| projected |s⟩ = ⟨E t| operator |E s⟩` for all basis states `s, t` of the small register — the
-matrix elements of the shared Spec (`Spec.applyOp .qubit`). -/
-theorem project_onto_sector_sound_partial (A B : Model.Op) (qubits sectors : List Nat) (E : Nat → Nat)
-    (hE : Emb qubits sectors E)
-    (hA : ∀ e ∈ A, Pauli123 e.1 ∧ e.1.Pairwise (fun a b => a.1 ≠ b.1))
-    (h : projectOntoSector 0 A qubits sectors = .ok B) (s t : Nat) :
+/-- **`project_onto_sector_sound`** at the live tolerance: if `project_onto_sector` succeeds on an
+operator on `n` qubits whose terms are Pauli strings on distinct qubits and the exactness flag of the
+run is `true` (every `projected_operator +=` in the exact regime; reported by the driver for every
+generated input), then `⟨t| projected |s⟩ = ⟨E t| operator |E s⟩` for all basis states `s, t` of the
+small register — the matrix elements of the shared Spec (`Spec.applyOp .qubit`). -/
+theorem project_onto_sector_sound (tol : Rat) (n : Nat) (A B : Model.Op) (qubits sectors : List Nat)
+    (E : Nat → Nat) (hE : Emb n qubits sectors E) (hq : qubits.Nodup) (hqn : ∀ q ∈ qubits, q < n)
+    (hA : ∀ e ∈ A, Pauli123 e.1 ∧ e.1.Pairwise (fun a b => a.1 ≠ b.1) ∧ ∀ f ∈ e.1, f.1 < n)
+    (h : projectOntoSector tol A qubits sectors = .ok (B, true)) (s t : Nat)
+    (hs : s < 2 ^ (n - qubits.length)) (ht : t < 2 ^ (n - qubits.length)) :
     GV.coeff (applyOp .qubit B [s]) [t] = GV.coeff (applyOp .qubit A [E s]) [E t] := by
   unfold projectOntoSector at h
   split at h
@@ -238,19 +248,42 @@ theorem project_onto_sector_sound_partial (A B : Model.Op) (qubits sectors : Lis
           have h2 : ¬ (v ≠ 0 ∧ v ≠ 1) := fun hv => this ⟨v, hm, by simpa using hv⟩
           simp only [Option.getD_some]
           omega
-      cases h
-      have := project_fold qubits sectors E hE hsec s t A [] hA
-      rw [Sem.den_nil, zero_add] at this
-      exact this
+      simp only [Except.ok.injEq] at h
+      have key := (project_fold tol n qubits sectors E hE hq hqn hsec s t hs ht A ([], true) hA (by rw [h])).2
+      rw [h] at key
+      simp only [Sem.den_nil, zero_add] at key
+      exact key
 
-/-- non-vacuity: removing qubit 0 in sector 1 (`E s = 2s + 1`) from `Z0 X1 + X0` -/
-example : Emb [0] [1] (fun s => 2 * s + 1) ∧
-    (∀ e ∈ ([([(0, 3), (1, 1)], 1), ([(0, 1)], 1)] : Model.Op),
-      Pauli123 e.1 ∧ e.1.Pairwise (fun a b => a.1 ≠ b.1)) :=
-  ⟨emb_example, by
-    intro e he
-    simp only [List.mem_cons, List.not_mem_nil, or_false] at he
-    rcases he with rfl | rfl <;> simp [Pauli123]⟩
+/-- **the embedding the oracle uses is an `Emb`**, for every list of distinct removed qubits below `n`
+(kept qubits in increasing order, sector-1 qubits set). -/
+theorem spec_embed_is_emb (n : Nat) (qubits sectors : List Nat) (hq : qubits.Nodup)
+    (hqn : ∀ q ∈ qubits, q < n) (hl : qubits.length = sectors.length) :
+    Emb n qubits sectors (Spec.C16.embed (keptList n qubits) (onesList qubits sectors)) :=
+  embed_emb n qubits sectors hq hqn hl
+
+/-- **`project_onto_sector_sound` against the Spec embedding**: the statement the oracle
+`Spec.C16.embedDiff` evaluates, for all `s, t < 2^(n-k)`. -/
+theorem project_onto_sector_sound_spec (tol : Rat) (n : Nat) (A B : Model.Op) (qubits sectors : List Nat)
+    (hq : qubits.Nodup) (hqn : ∀ q ∈ qubits, q < n)
+    (hA : ∀ e ∈ A, Pauli123 e.1 ∧ e.1.Pairwise (fun a b => a.1 ≠ b.1) ∧ ∀ f ∈ e.1, f.1 < n)
+    (h : projectOntoSector tol A qubits sectors = .ok (B, true)) (s t : Nat)
+    (hs : s < 2 ^ (n - qubits.length)) (ht : t < 2 ^ (n - qubits.length)) :
+    GV.coeff (applyOp .qubit B [s]) [t]
+      = GV.coeff (applyOp .qubit A [Spec.C16.embed (keptList n qubits) (onesList qubits sectors) s])
+          [Spec.C16.embed (keptList n qubits) (onesList qubits sectors) t] := by
+  have hl : qubits.length = sectors.length := by
+    unfold projectOntoSector at h
+    split at h
+    · cases h
+    · rename_i hne; simpa using hne
+  exact project_onto_sector_sound tol n A B qubits sectors _ (embed_emb n qubits sectors hq hqn hl) hq hqn hA h
+    s t hs ht
+
+/-- non-vacuity: `Z0 X1 + X0` on 2 qubits, qubit 0 removed in sector 1, at the live tolerance -/
+example : (match projectOntoSector eqTolerance [([(0, 3), (1, 1)], 1), ([(0, 1)], 1)] [0] [1] with
+    | .ok r => r.2
+    | .error _ => false) = true ∧ Emb 2 [0] [1] (fun s => 2 * s + 1) :=
+  ⟨by decide +kernel, emb_example 2⟩
 
 /-- **`rotate_qubit_by_pauli_sound`**: for a Pauli string `P` on distinct qubits, `c² + s² = 1`,
 called with `cos 2θ = c² - s²`, `sin 2θ = 2cs`, the Model of `rotate_qubit_by_pauli` succeeds and
@@ -287,6 +320,61 @@ example : c35 * c35 + s45 * s45 = 1 ∧
       (Model.smul (c35 * c35 - s45 * s45) (rOdd eqTolerance exX0 [(exZ0, 1)])) ∧
     ExactAdd eqTolerance (rA eqTolerance exX0 [(exZ0, 1)] (c35 * c35 - s45 * s45))
       (rLast eqTolerance exX0 [(exZ0, 1)] (2 * c35 * s45)) := by
+  decide +kernel
+
+/-- **the scan of `freeze_orbitals` against the Fock-space Spec** (`Spec.actFTerm`), one product `τ`
+of ladder operators and one frozen mode `f` with occupation `o`.  `Y` is a basis state in which mode
+`f` is empty, `Y ⊕ o·2^f` the same state with the frozen occupation.  With
+`(new_term, n_swaps, annihilated, occupancy) = freezeScan (f, o) τ`:
+(i) if the code keeps the term (not annihilated, final occupancy `= o`), then `τ` acts on the frozen
+state exactly as `new_term` acts on `Y`, times `(-1)^(n_swaps + o · #{operators of new_term above f})`
+— the two signs the code applies — and the frozen mode keeps its occupation;
+(ii) if the code drops the term, `τ` annihilates the frozen state or moves it out of the frozen
+sector. -/
+theorem freeze_term_sound (f o : Nat) (ho : o < 2) (τ : Model.Term) (hτ : ∀ g ∈ τ, g.2 < 2) (Y : Nat)
+    (hY : Y.testBit f = false) :
+    (((freezeScan (f, o) τ).2.2.1 = false ∧ (freezeScan (f, o) τ).2.2.2 = o) →
+      match actFTerm (freezeScan (f, o) τ).1 Y with
+      | none => actFTerm τ (Y ^^^ (if o = 1 then 1 <<< f else 0)) = none
+      | some (ks, Ys) => Ys.testBit f = false ∧
+          actFTerm τ (Y ^^^ (if o = 1 then 1 <<< f else 0)) = some ((ks + ((freezeScan (f, o) τ).2.1 % 2).toNat +
+            o * ((freezeScan (f, o) τ).1.filter fun g => g.1 > f).length) % 2,
+            Ys ^^^ (if o = 1 then 1 <<< f else 0))) ∧
+    (¬ ((freezeScan (f, o) τ).2.2.1 = false ∧ (freezeScan (f, o) τ).2.2.2 = o) →
+      ∀ kb Xb, actFTerm τ (Y ^^^ (if o = 1 then 1 <<< f else 0)) = some (kb, Xb) →
+        Xb.testBit f = !decide (o = 1)) :=
+  freeze_term f o ho τ hτ Y hY
+
+/-- non-vacuity: `a†_2 a†_1 a_0 a_1` with mode 1 occupied on `|001⟩`: kept, one sign from the swaps -/
+example : (freezeScan (1, 1) [(2, 1), (1, 1), (0, 0), (1, 0)]).2.2.1 = false ∧
+    (freezeScan (1, 1) [(2, 1), (1, 1), (0, 0), (1, 0)]).2.2.2 = 1 ∧
+    actFTerm (freezeScan (1, 1) [(2, 1), (1, 1), (0, 0), (1, 0)]).1 1 = some (0, 4) ∧
+    actFTerm [(2, 1), (1, 1), (0, 0), (1, 0)] 3 = some (0, 6) := by decide
+
+/-- **`freeze_orbitals_sound`** (whole operators, several frozen orbitals, `prune=False`) at the live
+tolerance: for distinct frozen orbitals, an operator whose actions are 0/1, and the exactness flag of
+the run `true` (every `tmp_operator +=` of every pass in the exact regime; reported by the driver
+for every generated input), the result reproduces the matrix elements of the input between the
+basis states that carry the frozen occupations:
+`⟨T| freeze_orbitals(A) |Y⟩ = ⟨T ⊕ occ| A |Y ⊕ occ⟩` for all `Y, T` with the frozen modes empty —
+the matrix elements of the shared Spec (`Spec.applyOp .fermion`). -/
+theorem freeze_orbitals_sound (tol : Rat) (A : Model.Op) (occupied unoccupied : List Nat)
+    (hnd : (occupied ++ unoccupied).Nodup) (hA : ∀ e ∈ A, ∀ g ∈ e.1, g.2 < 2)
+    (hex : (freezeOrbitalsX tol A occupied unoccupied false).2 = true) (Y T : Nat)
+    (hY : ∀ i ∈ occupied ++ unoccupied, Y.testBit i = false)
+    (hT : ∀ i ∈ occupied ++ unoccupied, T.testBit i = false) :
+    GV.coeff (applyOp .fermion (freezeOrbitals tol A occupied unoccupied false) [Y]) [T]
+      = GV.coeff (applyOp .fermion A [Y ^^^ occupied.foldr (fun i m => m ^^^ (1 <<< i)) 0])
+          [T ^^^ occupied.foldr (fun i m => m ^^^ (1 <<< i)) 0] :=
+  freeze_orbitals_den tol A occupied unoccupied hnd hA hex Y T hY hT
+
+/-- non-vacuity: `a†_2 a†_1 a_0 a_1 + 1/2 a†_0 a_0` with orbital 1 occupied and orbital 3 empty, at the
+live tolerance: the flag is `true` and the result is `a†_2 a_0 + 1/2 a†_0 a_0` (the swap sign and the
+occupied-orbital sign cancel) -/
+example : (freezeOrbitalsX eqTolerance [([(2, 1), (1, 1), (0, 0), (1, 0)], 1), ([(0, 1), (0, 0)], ⟨1/2, 0⟩)]
+      [1] [3] false).2 = true ∧
+    (freezeOrbitalsX eqTolerance [([(2, 1), (1, 1), (0, 0), (1, 0)], 1), ([(0, 1), (0, 0)], ⟨1/2, 0⟩)]
+      [1] [3] false).1 = [([(2, 1), (0, 0)], 1), ([(0, 1), (0, 0)], ⟨1/2, 0⟩)] := by
   decide +kernel
 
 end OFV.C16
